@@ -354,20 +354,82 @@ def _chunks(l, k):
     return [l[i:i + size] for i in range(0, len(l), size)]
 
 
-def run_harness(cmd, cases, shards=None, timeout=1800, extra_args=()):
-    """cases: list of JSON-able dicts; returns list of observations (same order)."""
+def _run_stream(argv, lines, per_case_timeout=30, mem_kb=3000000, max_crashes=3):
+    """Feed `lines` to a line-oriented child (one output line per input line).
+    A crash, kill or stall is attributed to the first unanswered line; the child
+    is restarted on the rest. Returns a list of str or ('crash', reason)."""
+    import select
+    import threading
+    results = []
+    i = 0
+    crashes = 0
+    while i < len(lines):
+        if crashes >= max_crashes:
+            results.extend([("skipped", "too many crashes in this shard")] * (len(lines) - i))
+            break
+        p = subprocess.Popen(["/bin/sh", "-c", "ulimit -v %d 2>/dev/null; exec \"$@\"" % mem_kb, "sh"] + list(argv),
+                             stdin=subprocess.PIPE, stdout=subprocess.PIPE, stderr=subprocess.DEVNULL, env=ENV)
+        rest = lines[i:]
+
+        def feed(proc=p, data=rest):
+            try:
+                proc.stdin.write(("\n".join(data) + "\n").encode("utf-8"))
+                proc.stdin.close()
+            except (BrokenPipeError, OSError):
+                pass
+        th = threading.Thread(target=feed, daemon=True)
+        th.start()
+        buf = b""
+        got = 0
+        reason = None
+        fd = p.stdout.fileno()
+        while got < len(rest):
+            r, _, _ = select.select([fd], [], [], per_case_timeout)
+            if not r:
+                reason = "timeout after %ss (no answer; hang or unbounded loop)" % per_case_timeout
+                break
+            chunk = os.read(fd, 1 << 16)
+            if not chunk:
+                rc = p.wait()
+                reason = "process died (exit status %s)" % rc
+                break
+            buf += chunk
+            while b"\n" in buf:
+                line, buf = buf.split(b"\n", 1)
+                if line.strip():
+                    results.append(line.decode("utf-8", "replace"))
+                    got += 1
+        try:
+            p.kill()
+        except OSError:
+            pass
+        p.wait()
+        i += got
+        if got < len(rest):
+            results.append(("crash", reason or "no output"))
+            crashes += 1
+            i += 1
+    return results
+
+
+def run_harness(cmd, cases, shards=None, per_case_timeout=30, extra_args=()):
+    """cases: list of JSON-able dicts; returns list of observations (same order).
+    A case on which the harness process dies or stalls yields {"crash": reason}."""
     if not cases:
         return []
     parts = _chunks(cases, shards or NCPU)
 
     def one(part):
-        inp = "\n".join(json.dumps(c) for c in part) + "\n"
-        r = subprocess.run([HARNESS_BIN, cmd, *extra_args], input=inp, stdout=subprocess.PIPE, stderr=subprocess.PIPE,
-                           text=True, timeout=timeout, env=ENV)
-        lines = [l for l in r.stdout.split("\n") if l.strip()]
-        if r.returncode != 0 or len(lines) != len(part):
-            raise BuildError("harness %s: exit %s, %d/%d lines\n%s" % (cmd, r.returncode, len(lines), len(part), r.stderr[-2000:]))
-        return [json.loads(l) for l in lines]
+        res = _run_stream([HARNESS_BIN, cmd, *extra_args], [json.dumps(c) for c in part], per_case_timeout)
+        out = []
+        for c, r in zip(part, res):
+            if isinstance(r, tuple) and r[0] == "skipped":
+                out.append({"id": c.get("id"), "skipped": True})
+            elif isinstance(r, tuple):
+                out.append({"id": c.get("id"), "crash": r[1], "panic": "CRASH: " + r[1]})
+            else:
+                out.append(json.loads(r))
+        return out
 
     with ThreadPoolExecutor(len(parts)) as ex:
         res = list(ex.map(one, parts))
@@ -496,6 +558,9 @@ class Report:
         self.corr_broken.append(o)
 
     def violation(self, kind, payload, suffix=""):
+        if len(self.violations) >= 12:      # enough replays on disk; keep counting
+            self.violations.append((self.violations[-1][0], suffix))
+            return
         payload = dict(payload)
         payload.update({"tier": self.tier, "seed": self.seed})
         path = write_replay(self.pid, kind, payload)
